@@ -30,17 +30,23 @@ def c14_stats(cases, model):
 
 
 def c14_nontrivial(c, ms):
-    """At least one expiry observed by a listener and at least one request that re-governed a key
-    which had a pending timer (t={…} non-empty before a set on it)."""
+    """A virtual-time case in which a listener saw an expiry, a `late` case (callback behind another
+    call), or a concurrent case whose listeners received something."""
     impl = c.get("impl") or []
-    expiry = any(o.startswith("adv") and " L" in i for o, i in zip(c["ops"], impl))
-    return expiry
+    for o, i in zip(c["ops"], impl):
+        if o.startswith("adv") and " L" in i:
+            return True
+        if o.startswith("late ") and i.startswith("r="):
+            return True
+        if o.startswith("conc ") and " L1:" in i:
+            return True
+    return False
 
 
 CONFIG = dict(
     modules=["SigModel.Props.C14"],
     theorems=["SigModel.Transient." + t for t in [
-        "C14_source_is_repaired", "C14_atomic_ops", "C14_wiring",
+        "C14_source_is_repaired", "C14_atomic_ops", "C14_listener_lock_is_leaf", "C14_wiring",
         "C14_replica_converges", "C14_replica_converges_map", "C14_replica_step",
         "C14_unchanged_silent", "C14_changed_notifies_all", "C14_notification_means_change",
         "C14_ttl_governed_by_latest", "C14_nothing_overdue", "C14_spec_latest_governs", "C14_spec_settle",
@@ -52,17 +58,52 @@ CONFIG = dict(
     harness=dict(pkg="signaling", test="TestVerifC14", go="go1.26"),
     stats=c14_stats,
     nontrivial=c14_nontrivial,
-    rule="PRNG op sequences over 3 keys x 4 values (string / raw JSON / number) x ttl in {0, negative, short, long}: "
-         "set, set-without-ttl, compare-and-set, remove, compare-and-remove (nil arguments included), listeners "
-         "1..3 joining and leaving, and passages of virtual time landing just before / exactly on / just after "
-         "pending deadlines; a case is non-trivial if a listener saw at least one expiry; distinct = distinct op lists",
-    trusted_base=["testing/synctest of go1.26 (virtual clock for the real time.AfterFunc timers)",
-                  "reflect.DeepEqual on the value kinds used is equality of the value tokens"],
-    assumptions=[],
+    rule="(1) virtual time (testing/synctest): PRNG op sequences over up to 5 keys x 7 values (string / raw JSON / number / "
+         "map / list tokens) x ttl in {0, negative, short, long}: set, set-without-ttl, compare-and-set, remove, "
+         "compare-and-remove (nil arguments included), listeners 1..4 joining and leaving, passages of time landing "
+         "1 ns before / exactly on / 1 ns after requested deadlines (superseded ones included); per step the return "
+         "value, every listener's messages, GetData() and the keys of t.timers are compared with the model and judged "
+         "by the spec. (2) real clock `late` cases: the expiry callback has fired but runs behind another call "
+         "(harness holds t.mu, orders the two waiters through the mutex queue). (3) `conc` cases: two writer "
+         "goroutines and a listener leaving/re-joining with its own mutex held, judged by the spec only (replicas of "
+         "the permanent listeners = final data; watchdog for hangs). Non-trivial: a listener saw an expiry / a late "
+         "callback was realised / concurrent listeners received messages; distinct = distinct op lists",
+    trusted_base=["testing/synctest of go1.26 (virtual clock for the real time.AfterFunc timers); the runtime fires "
+                  "timers with distinct deadlines in deadline order (the generator never makes two deadlines coincide)",
+                  "reflect.DeepEqual on the value kinds used by the harness is equality of the value tokens",
+                  "sync.Mutex queues waiters FIFO and its state word is `waiters << 3 | flags` (used only by the `late` "
+                  "choreography of the harness)",
+                  "ClientSession.SendMessage renders or queues the message it is given synchronously (the `initial` "
+                  "message aliases the live map; a session that only queues it for a later resume is not modelled)"],
+    assumptions=["one Op of the model = one exported method call or one run of the expiry callback; justified by the "
+                 "extracted facts C14_atomic_ops / C14_listener_lock_is_leaf (every method is a single critical section; "
+                 "senders are reached only from inside the store mutex), not by a proof about the Go memory model",
+                 "RemoveListener linearises at its own (listener-set) mutex: a listener may still receive the one "
+                 "notification whose delivery had begun before it was removed",
+                 "two timers with the very same deadline may run in either order (covered by the theorems, which hold "
+                 "for every order of callbacks; not exercised by the harness)"],
 )
 
 MANIFEST = dict(
-    text="(in progress)",
-    note="(in progress)",
-    technique="Lean 4 proof + regenerated facts + differential correspondence under virtual time",
+    text="Machine-checked Lean 4 theorems about a model of transient_data.go that follows the Go functions one to one "
+         "(timers as objects that can be armed, fired-but-waiting-for-the-mutex, stopped; the t.timers map beside them) "
+         "and is defined over facts regenerated from the source: for every sequence of set / set-with-ttl / "
+         "compare-and-set / remove / compare-and-remove / listener join / leave / passage of time / delayed expiry "
+         "callback, every registered listener's replica (snapshot at join + notifications in order) equals the store; "
+         "a request that leaves the value unchanged notifies nobody and every notification means a change; the store "
+         "equals an ideal per-key store in which the latest effective request fixes value and deadline and time "
+         "removes exactly what is past its deadline (quiescent schedules), and for callbacks delayed behind other "
+         "calls a value disappears only through the expiry of the request that still governs it, at or after its "
+         "deadline. Proved counter-examples show that the pinned original violated this (ttl cleared / ABA / "
+         "compare-and-set notification) and that the identity check in the callback is necessary. Tied to the code by "
+         "extraction (the repaired places, single critical sections, leaf listener lock, room/hub wiring) and by a "
+         "differential run of the real TransientData under virtual time, plus real-clock late-callback and "
+         "goroutine cases.",
+    note="Trusted: Lean kernel, extractor, harness/comparison, testing/synctest, reflect.DeepEqual = token equality. "
+         "Atomicity of whole calls rests on extracted lock structure, not on a proof. Found and repaired in /repo: "
+         "f026984 (ttl cleared / replaced still expires, ABA), df7b9c5 (compare-and-set to the stored value notified), "
+         "d70134f (RemoveListener vs. notification lock-order deadlock, reported by the C10 builder).",
+    technique="Lean 4 proof (inductive invariant relating timers, timer map and ideal deadlines; simulation of every "
+              "model step by spec events; replica invariant) + regenerated facts + differential correspondence under "
+              "virtual time (go1.26 testing/synctest) + spec judge on the implementation's trace",
 )
